@@ -98,6 +98,7 @@ type obsEntry struct {
 }
 
 type Path struct {
+	shallowMerge bool // set while a merge involving a dynamic message runs (intr_proto.go)
 	eng     *Engine
 	cfg     *Config
 	tc      *TermCtx
